@@ -16,18 +16,33 @@ type iterator struct {
 }
 
 // NewIterator creates a new iterator for the given prefix. The start key is inclusive.
+// escapeGlob escapes the metacharacters of a Redis MATCH pattern so that the
+// prefix is matched literally.
+func escapeGlob(s string) string {
+	var b strings.Builder
+	for i := 0; i < len(s); i++ {
+		switch s[i] {
+		case '*', '?', '[', ']', '\\':
+			b.WriteByte('\\')
+		}
+		b.WriteByte(s[i])
+	}
+	return b.String()
+}
+
 func (db *redisDB) NewIterator(prefix []byte, start []byte) (database.Iterator, error) {
 	buf := make([]byte, 0, len(prefix)+len(start))
 	buf = append(buf, prefix...)
 	buf = append(buf, start...)
 	startString := string(buf)
+	prefixString := string(prefix)
 
 	var nextCursor uint64
 	// Pre-allocate with heuristic: SCAN uses COUNT 100
 	allKeys := make([]string, 0, 100)
 	var err error
 
-	pattern := startString + "*"
+	pattern := escapeGlob(prefixString) + "*"
 
 	for {
 		var keys []string
@@ -38,7 +53,7 @@ func (db *redisDB) NewIterator(prefix []byte, start []byte) (database.Iterator, 
 
 		// Filter keys that match the prefix
 		for _, key := range keys {
-			if strings.HasPrefix(key, startString) {
+			if strings.HasPrefix(key, prefixString) && key >= startString {
 				allKeys = append(allKeys, key)
 			}
 		}
